@@ -22,6 +22,21 @@ CHECKS = {
         "ill-typed term so a stale skeleton cannot be used. The race detector of the Go toolchain is used for the search only.",
    technique="Coq proof (interleaving semantics, verified lock-discipline checker) over a skeleton regenerated from source by a translator + race-detector stress search",
    design="5 C20"),
+ "C19": dict(
+   text="Theorems (Properties/C19.v, 17, all closed) by induction over ALL histories of {serve, fail, load, tick} (fold_left step), every configuration and every "
+        "behaviour of the cachecontrol dependency (cc is an arbitrary function in the theorems, a recorded table in the runs): C19_inv (every cache entry stems "
+        "from an earlier 200+JSON response with storable headers, expiry = that time + lifetime; embedded URLs never enter the cache), C19_fresh (a load returns "
+        "Err, or the origin's current document with exactly one request, or an unexpired cached one, or the embedded one - in the last two cases the whole state "
+        "incl. the request log is unchanged), C19_no_reuse(_headers) (no-store / private / no-cache / no-freshness / expired responses are never reused), "
+        "C19_failures, C19_embedded_*, C19_route(_table,_dispatch) (complete routing decision table), C19_total. The model (LoadDocument, loadDocumentFromHTTP "
+        "incl. the alternate-Link recursion on fuel, IPFS client/gateway paths, memoryCacheEngine) is run against the REAL loader on ~2300 histories per run "
+        "(all histories of length <=3 over a 7-symbol alphabet + random ones over 16 header sets, 8 status codes, all schemes and configurations) with an injected "
+        "transport, a virtual clock and recorded cachecontrol tables; compared: per-load outcome, requests issued, final cache contents.",
+   note="Theorems are stated under the explicit hypothesis that no response carries an alternate Link header (outside the property's history alphabet); for that branch "
+        "C19_link_reuse_refuted / C19_link_diverges_refuted record two observations (O-L1 unbounded recursion on a self-referential link, O-L2 a no-store alternate "
+        "reused under the linking URL's policy). pquerna/cachecontrol and http.NewRequest are recorded oracles. Hook: loaders/verif_hooks_c19.go (025b116).",
+   technique="Coq proof by induction over histories of an executable loader/cache model + per-run model/implementation differential on the real loader (vm_compute)",
+   design="5 C19"),
  "C04": dict(
    text="Theorems (Properties/C04.v) over the executable model of the value-encoding code, for every hasher, lexical form and odd modulus p>=3: "
         "integer types accepted exactly in range and encoded as v / p+v without reduction, injective per type, spelling-independent; booleans; "
@@ -63,7 +78,7 @@ def main():
             "guard": "verif",
             "enable": "go build -tags verif (harness module /verif/harness with replace => /repo)",
             "baseline_off_cmd": "python3 /verif/engine/baseline.py",
-            "source_commits": ["9e3fb9e", "2ae4494"],
+            "source_commits": ["9e3fb9e", "2ae4494", "025b116"],
             "add_only": True,
         },
         "engines": [{"name": "coq-proof+correspondence", "path": "/verif/check",
